@@ -105,6 +105,17 @@ CLAIMED = {
             "harness/worker_ssm.py runs natively (no overlay), exponentiates float32 log outputs in float64 and records backward_sample's logits under scripted draws (jit disabled); "
             "the Kalman log marginal likelihood is checked through rational enclosures of exp with a literal enclosure of ln(2 pi); tolerance 2e-4. No axioms.",
             "Coq proof by induction over the observation sequence (HMM) + differential correspondence and dense-conditioning judgement (vm_compute)", "7/C20"),
+    "C13": ("Model: for each of the 24 exported distributions and each documented call signature (positional and keyword: probs vs logits, rate vs log_rate, covariance, ...) the log "
+            "density / log mass as a reflected real expression of rational parameters and value (coq/Model/Dists.v: spec, doc_table). Theorems (all parameters, all sizes): total mass 1 for "
+            "flip, bernoulli (probs and logits), categorical over any non-empty logits, binomial for every n; geometric counts failures from 0 with mass p(1-p)^k and partial masses "
+            "1-(1-p)^n; sample_shape / vectorisation only prepend dimensions (lanes ++ sample_shape ++ batch ++ event). Correspondence on every run: implementation logpdf (eager = jit = "
+            "assess weight) vs the denotation of the specification, decided INSIDE Coq by the Interval tactic per case; shapes and dtypes by computation; sampler law by goodness of fit "
+            "against scipy (4000 draws; sample_shape, modular_vmap, 2-D sample_shape, vmap x sample_shape). NOT mechanised (partial): normalisation of the families whose constant needs "
+            "the Gaussian integral or Gamma/Beta/zeta as integrals (validated point-wise only, on integer / half-integer shapes), and that the TFP samplers draw from the density (statistical).",
+            "Trusted: Coq kernel; coq-interval's reflexive tactic (kernel-checked via vm_compute); the standard library's classical real-number axioms (sig_not_dec, sig_forall_dec, "
+            "functional_extensionality_dep, classic) as reported by Print Assumptions; hand model coq/Model/Dists.v; harness/worker_dists.py (overlay; parameters and values rounded to "
+            "float32 and passed as exact rationals; tolerance 1e-3 + 1e-4|logpdf|); scipy.stats as the reference for the sampler law (fixed keys, rejection below p = 1e-6).",
+            "Coq proof over the reals (normalisation identities, induction over supports) + per-case certified interval arithmetic (Interval) + goodness-of-fit validation", "7/C13"),
     "C09": ("Theorems: accept iff log u < min(0, log_alpha) (all kernels); the MH balance identity a*min(1,b/a) = b*min(1,a/b); the weight mh uses is the MH log ratio of the "
             "regenerate-from-prior proposal (via C04); mala's log_alpha is the MH log ratio of the Langevin proposal with drift eps^2/2*grad, scale eps, one noise per coordinate; "
             "n leapfrog steps are reversible under momentum flip for ANY gradient function over ANY commutative ring; rejected moves return the input; unselected coordinates untouched. "
